@@ -53,6 +53,8 @@ type Item struct {
 	// JoinIfs: if statements that always fall through are translated with a join point instead of
 	// copying the continuation into both branches (linear instead of exponential output).
 	JoinIfs bool `json:"join_ifs"`
+	// JoinNestedIfs: join_ifs, also for if statements with an init clause or with nested if statements.
+	JoinNestedIfs bool `json:"join_nested_ifs"`
 }
 
 type Spec struct {
@@ -64,6 +66,12 @@ type Spec struct {
 	// get their values and functions may take / call types and functions of other
 	// packages of the repository.
 	FullImports bool `json:"full_imports"`
+	// IfaceCases: interface types that are translated as sum types. Key "<import path or repo dir>.<Name>"
+	// (e.g. "github.com/miekg/dns.RR"), value: the names of the concrete struct types of the same package
+	// (asserted as *T) that get a constructor of their own. Every other dynamic type is the constructor
+	// `other` (for an interface with a `Header() *H` method and `Hdr H` fields it carries the header), so
+	// a type assertion or type switch naming a type outside the list is refused.
+	IfaceCases map[string][]string `json:"iface_cases"`
 }
 
 var (
@@ -168,9 +176,10 @@ func loadPkg(dir string) *pkgInfo {
 		broken("no Go files in %s", dir)
 	}
 	pi.info = &types.Info{
-		Types: map[ast.Expr]types.TypeAndValue{},
-		Defs:  map[*ast.Ident]types.Object{},
-		Uses:  map[*ast.Ident]types.Object{},
+		Types:     map[ast.Expr]types.TypeAndValue{},
+		Defs:      map[*ast.Ident]types.Object{},
+		Uses:      map[*ast.Ident]types.Object{},
+		Implicits: map[ast.Node]types.Object{},
 	}
 	conf := types.Config{
 		Importer: &fakeImporter{std: importer.ForCompiler(pi.fset, "source", nil), fake: map[string]*types.Package{}},
@@ -598,6 +607,7 @@ func main() {
 		os.Exit(2)
 	}
 	fullImports = spec.FullImports
+	ifaceCases = spec.IfaceCases
 	if gm, err := os.ReadFile(filepath.Join(repo, "go.mod")); err == nil {
 		for _, l := range strings.Split(string(gm), "\n") {
 			if strings.HasPrefix(l, "module ") {
